@@ -54,7 +54,8 @@ func NewViewFromGroupedRecord(ctx context.Context, flags *option.Flags, referenc
 
 	if err := NewGoroutineTaskManager(record.GroupLen(), -1, flags.CPU).Run(ctx, func(index int) error {
 		view.RecordSet[index] = make(Record, view.FieldLen())
-		for j := range record {
+		// A cell that an analytic function has already appended to the record has no header field yet.
+		for j := 0; j < len(record) && j < view.FieldLen(); j++ {
 			grpIdx := index
 			if len(record[j]) < 2 {
 				grpIdx = 0
